@@ -50,6 +50,12 @@ type Case struct {
 	Variant string `json:"variant"`
 	A       int    `json:"a"`
 	Other   string `json:"other"`
+	Then    int32  `json:"then,omitempty"` // afterwards build the same token (same key octets and usage) under this etype of equal key length, then the first one again
+}
+
+// sibling is the other etype taking keys of the same length (0 = none).
+func sibling(et int32) int32 {
+	return map[int32]int32{ref.AES128SHA1: ref.AES128SHA2, ref.AES128SHA2: ref.AES128SHA1, ref.AES256SHA1: ref.AES256SHA2, ref.AES256SHA2: ref.AES256SHA1}[et]
 }
 
 // lib wraps the two gokrb5 token types behind one set of operations.
@@ -235,6 +241,25 @@ func Eval(c Case) evid.Verdict { v, _, _ := eval(c); return v }
 // eval returns the verdict, whether the case is trivial (the "change" changes nothing) and, for
 // tampered presentations, which defence rejected it.
 func eval(c Case) (v evid.Verdict, trivial bool, outcome string) {
+	v, trivial, outcome = eval1(c)
+	if v.OK && c.Then != 0 && !trivial {
+		// no hidden state keyed by the key octets alone: the same octets under the sibling etype, then under the first again
+		for _, et := range []int32{c.Then, c.EType} {
+			c2 := c
+			c2.EType, c2.Then, c2.Variant = et, 0, "build"
+			if v2, _, _ := eval1(c2); !v2.OK {
+				if v2.Sig != "harness" {
+					v2.Sig = "after-sibling-etype:" + v2.Sig
+					v2.Msg = fmt.Sprintf("after the same key octets and usage had been used under etype %d: %s", c.EType, v2.Msg)
+				}
+				return v2, false, outcome
+			}
+		}
+	}
+	return v, trivial, outcome
+}
+
+func eval1(c Case) (v evid.Verdict, trivial bool, outcome string) {
 	v = evid.SafeEval(func() evid.Verdict {
 		if c.Kind != gsstok.KindMIC && c.Kind != gsstok.KindWrap {
 			return evid.Fail("harness", "bad kind %q", c.Kind)
@@ -712,6 +737,10 @@ func TestProp(t *testing.T) {
 		case "build-rrc":
 			c.Kind = gsstok.KindWrap
 			c.A = rapid.SampledFrom([]int{1, 12, 16, 28, 255, 256, 65535}).Draw(t, "rrc")
+		case "build", "present":
+			if sb := sibling(c.EType); sb != 0 && rapid.IntRange(0, 2).Draw(t, "withsibling") == 0 {
+				c.Then = sb
+			}
 		case "newinit":
 			c.Flags, c.Seq, c.Usage = 0, 0, gsstok.RFCUsage(c.Kind, false)
 		case "bitflip":
@@ -851,6 +880,10 @@ func TestProp(t *testing.T) {
 		judge("enum", c, nil)
 		if g.kind == gsstok.KindWrap {
 			c.Variant, c.A = "build-rrc", []int{1, 12, 28, 65535}[i%4]
+			judge("enum", c, nil)
+		}
+		if sb := sibling(g.et); sb != 0 {
+			c.Variant, c.A, c.Then = "build", 0, sb
 			judge("enum", c, nil)
 		}
 	})
